@@ -76,7 +76,7 @@ func init() {
 	propSpecs = []*PropSpec{
 		{
 			ID:          "C01",
-			Rules:       []RuleUse{use("R-DISPATCH", "v5"), use("R-TOKEN", "v5"), use("R-TOKTAB", "v5"), use("R-REPLACE", "v5"), use("R-MOVE", "v5"), use("R-COPYISO", "v5"), use("R-TYPESTATE", "v5"), use("R-SUCCESS", "v5"), {Rule: "R-BOUNDS", Bodies: []string{"v5"}, KeyHas: []string{"(*partialArray)", "findObject", "(*partialDoc)"}}, use("R-NEGIDX", "v5"), use("R-SELF", "v5"), use("R-NULLSPELL", "v5")},
+			Rules:       []RuleUse{use("R-DISPATCH", "v5"), use("R-TOKEN", "v5"), use("R-TOKTAB", "v5"), use("R-REPLACE", "v5"), use("R-MOVE", "v5"), use("R-COPYISO", "v5"), use("R-TYPESTATE", "v5"), use("R-SUCCESS", "v5"), {Rule: "R-BOUNDS", Bodies: []string{"v5"}, KeyHas: []string{"(*partialArray)", "findObject", "(*partialDoc)"}}, use("R-NEGIDX", "v5"), use("R-SELF", "v5"), use("R-NULLSPELL", "v5"), use("R-EQSHAPE", "v5")},
 			Explanation: "Decided for the v5 body: R-DISPATCH (all six RFC 6902 operations reach the handler with that operation's container effects; validator table = RFC 6902 §4; verdict cannot be bypassed), R-TOKEN + R-TOKTAB (every reference token obtained by splitting a path is decoded exactly once, by a decoder whose table and order are RFC 6901's, on every route to a member lookup, insertion or removal), R-REPLACE (replace requires the target to exist), R-MOVE (move = get, remove of the same container/key, destination resolved after the removal, add of that same value), R-COPYISO (copy inserts a fresh deep duplicate, never an alias), R-TYPESTATE (a null root is held as a nil container that every later operation rejects instead of dereferencing). R-SUCCESS (every handler reports success only after performing its operation). R-BOUNDS + R-NEGIDX (the index arithmetic of the four array methods stays in range for every parsed index and both SupportNegativeIndices settings; a negative index is honoured only under the option and is an error otherwise). R-SELF (the empty reference token denotes the container as it is now — a node built over the live container — never the parse-time snapshot: copy from \"\" sees the earlier operations). R-NULLSPELL (a test verdict on a non-nil looked-up node always consults that node's content, so a null stored by add/replace — a non-nil node whose text is null — is seen as null by later test operations).",
 			NotDecided:  "that the resulting values equal the RFC 6902 result (value-level: needs the contents of the lazily parsed byte slices); value-level agreement of equal() with RFC equality beyond the null-spelling mechanism; index semantics beyond range safety.",
 			Trusted:     commonTrusted, Assumptions: commonAssumptions,
@@ -111,9 +111,9 @@ func init() {
 		},
 		{
 			ID:          "C06",
-			Rules:       []RuleUse{{Rule: "R-GATE", Bodies: []string{"v5", "codec"}, KeyHas: []string{"Equal", "sink "}}, {Rule: "R-NIL", Bodies: []string{"v5"}, KeyHas: []string{"Equal", ".equal", "tryDoc", "tryAry", "compact", "isNull", "nextByte"}}, {Rule: "R-TYPESTATE", Bodies: []string{"v5"}, KeyHas: []string{".equal", "tryDoc", "tryAry"}}, {Rule: "R-RAW", Bodies: []string{"v5"}, KeyHas: []string{"compact", "tryDoc", "tryAry", "nextByte", "newLazyNode"}}, {Rule: "R-STALERAW", Bodies: []string{"v5"}, KeyHas: []string{".equal", "isNull", "compact", "tryDoc", "tryAry"}}, {Rule: "R-NUM", Bodies: []string{"v5"}, KeyHas: []string{"never parsed"}}, {Rule: "R-MAPORDER", Bodies: []string{"v5"}, KeyHas: []string{".equal"}}, {Rule: "R-ABSENT", Bodies: []string{"v5"}, KeyHas: []string{".equal"}}},
-			Explanation: "Decided for the v5 body: R-GATE on both parameters of Equal with the invalid edge returning false, R-NIL + R-TYPESTATE + R-RAW + R-STALERAW over Equal, (*lazyNode).equal, tryDoc, tryAry, compact, isNull (Equal is total: null roots, nulls inside arrays and as members, an array against null never dereference a nil node; comparison never re-reads stale bytes of a parsed node), R-NUM (no numeric parsing anywhere in the library: numbers are compared as literals, so distinct literals are never equal), R-MAPORDER (the member loop of equal has no order-sensitive effect), R-ABSENT (the member comparison looks the other side up with comma-ok and tests the flag: a null member is never equal to an absent one).",
-			NotDecided:  "reflexivity/symmetry/transitivity and agreement with an independent deep comparison (value-level); string comparison after unescaping.",
+			Rules:       []RuleUse{{Rule: "R-GATE", Bodies: []string{"v5", "codec"}, KeyHas: []string{"Equal", "sink "}}, {Rule: "R-NIL", Bodies: []string{"v5"}, KeyHas: []string{"Equal", ".equal", "tryDoc", "tryAry", "compact", "isNull", "nextByte"}}, {Rule: "R-TYPESTATE", Bodies: []string{"v5"}, KeyHas: []string{".equal", "tryDoc", "tryAry"}}, {Rule: "R-RAW", Bodies: []string{"v5"}, KeyHas: []string{"compact", "tryDoc", "tryAry", "nextByte", "newLazyNode"}}, {Rule: "R-STALERAW", Bodies: []string{"v5"}, KeyHas: []string{".equal", "isNull", "compact", "tryDoc", "tryAry"}}, {Rule: "R-NUM", Bodies: []string{"v5"}, KeyHas: []string{"never parsed"}}, {Rule: "R-MAPORDER", Bodies: []string{"v5"}, KeyHas: []string{".equal"}}, {Rule: "R-ABSENT", Bodies: []string{"v5"}, KeyHas: []string{".equal"}}, use("R-EQSHAPE", "v5"), {Rule: "R-NULLSPELL", Bodies: []string{"v5"}, KeyHas: []string{".equal"}}},
+			Explanation: "Decided for the v5 body: R-EQSHAPE (the recursive comparison itself: every branch tests the two operands only, so no verdict depends on a counter, option or other state; strings are compared after being unescaped by the codec's own decoder, each side from its own compacted text; every computed verdict uses both operands and the scalar comparison is bytes.Equal of the two compacted texts; the recursion pairs element i with element i and member k with member k under a preceding length/size comparison that answers false, answers false whenever the recursion does, and runs over all elements/members), R-NULLSPELL (no verdict from the nil-ness of member nodes: a stored null equals a decoded null), R-GATE on both parameters of Equal with the invalid edge returning false, R-NIL + R-TYPESTATE + R-RAW + R-STALERAW over Equal, (*lazyNode).equal, tryDoc, tryAry, compact, isNull (Equal is total: null roots, nulls inside arrays and as members, an array against null never dereference a nil node; comparison never re-reads stale bytes of a parsed node), R-NUM (no numeric parsing anywhere in the library: numbers are compared as literals, so distinct literals are never equal), R-MAPORDER (the member loop of equal has no order-sensitive effect), R-ABSENT (the member comparison looks the other side up with comma-ok and tests the flag: a null member is never equal to an absent one).",
+			NotDecided:  "reflexivity/symmetry/transitivity and agreement with an independent deep comparison as value-level statements (R-EQSHAPE decides the pairing, coverage and provenance of the verdicts, not the contents of the byte slices); that the codec's decoder unescapes strings per RFC 8259 is decided separately (C17/C18 rules) and assumed here.",
 			Trusted:     commonTrusted, Assumptions: commonAssumptions,
 		},
 		{
